@@ -23,6 +23,7 @@ var checks = map[string]func(string) int{
 	"C11": e6.RunC11,
 	"C12": e6.RunC12,
 	"C13": e1.RunC13,
+	"C16": e6.RunC16,
 	"C17": e2.RunC17,
 	"C19": e2.RunC19,
 	"C20": e6.RunC20,
